@@ -92,13 +92,13 @@ def actualState (h : HubSt) (e : HubEnv) : Res HubSt :=
     let bs ← h.bSupplyQ e
     let ss ← h.sSupplyQ e
     let actual := (e.delegations.map (·.2)).sum
-    let h1 ←
-      if h.bBond + h.sBond > actual then do
-        let nb := mulDec actual (fromRatio h.bBond (h.bBond + h.sBond))
-        let ns ← csub actual nb
-        pure { h with bBond := nb, sBond := ns }
-      else pure h
-    pure { h1 with bRate := rateOf h1.bBond bs h.reqB, sRate := rateOf h1.sBond ss h.reqS }
+    if h.bBond + h.sBond > actual then
+      -- `actual - nb` is a checked_sub; it cannot fail because the ratio is at most one
+      let nb := mulDec actual (fromRatio h.bBond (h.bBond + h.sBond))
+      if actual < nb then throw "overflow"
+      else pure { h with bBond := nb, sBond := actual - nb,
+                         bRate := rateOf nb bs h.reqB, sRate := rateOf (actual - nb) ss h.reqS }
+    else pure { h with bRate := rateOf h.bBond bs h.reqB, sRate := rateOf h.sBond ss h.reqS }
 
 /-- stable insertion sort, descending by amount (`sort_by(|a,b| b.cmp(a))`) -/
 def insDesc (x : Addr × Nat) : List (Addr × Nat) → List (Addr × Nat)
@@ -119,16 +119,18 @@ def pickValidator (e : HubEnv) (claim : Nat) : Res (List Msg) :=
   | some plan => .ok (zipMsgs (fun v p => Msg.undelegate e.self v p) vs plan)
 
 /-- `process_undelegations` on the in-memory state -/
-def processUndelegations (h : HubSt) (e : HubEnv) : Res (HubSt × List Msg) := do
-  let sUnd := mulDec h.reqS h.sRate
-  let bUnd := mulDec h.reqB h.bRate
-  let msgs ← pickValidator e (bUnd + sUnd)
-  let ns ← csub h.sBond sUnd
-  let nb ← csub h.bBond bUnd
-  let entry : History := { time := e.now, bAmt := h.reqB, bApplied := h.bRate, bWithdraw := h.bRate,
-                           sAmt := h.reqS, sApplied := h.sRate, sWithdraw := h.sRate, released := false }
-  pure ({ h with sBond := ns, bBond := nb, hist := upd h.hist h.batchId (some entry),
-                 batchId := h.batchId + 1, reqB := 0, reqS := 0, lastUnbondedTime := e.now }, msgs)
+def processUndelegations (h : HubSt) (e : HubEnv) : Res (HubSt × List Msg) :=
+  match pickValidator e (mulDec h.reqB h.bRate + mulDec h.reqS h.sRate) with
+  | .error err => .error err
+  | .ok msgs =>
+    if h.sBond < mulDec h.reqS h.sRate then .error "overflow"          -- checked_sub
+    else if h.bBond < mulDec h.reqB h.bRate then .error "overflow"     -- checked_sub
+    else
+      .ok ({ h with sBond := h.sBond - mulDec h.reqS h.sRate, bBond := h.bBond - mulDec h.reqB h.bRate,
+                    hist := upd h.hist h.batchId (some
+                      { time := e.now, bAmt := h.reqB, bApplied := h.bRate, bWithdraw := h.bRate,
+                        sAmt := h.reqS, sApplied := h.sRate, sWithdraw := h.sRate, released := false }),
+                    batchId := h.batchId + 1, reqB := 0, reqS := 0, lastUnbondedTime := e.now }, msgs)
 
 def addWait (h : HubSt) (u : Addr) (batch b s : Nat) : HubSt :=
   { h with waitSet := upd h.waitSet u (upd (h.waitSet u) batch true),
@@ -143,138 +145,214 @@ def delWait (h : HubSt) (u : Addr) (batch : Nat) : HubSt :=
 
 /-- peg fee of the paths that charge on the bSei amount itself (unbond, convert bSei→stSei) -/
 def pegFeeOnBurn (h : HubSt) (supply amount : Nat) : Res Nat :=
-  if h.bRate < h.thr then do
-    let required ← csub (supply + h.reqB) h.bBond
-    csub amount (min (mulDec amount h.fee) required)
-  else pure amount
+  if h.bRate < h.thr then
+    if supply + h.reqB < h.bBond then .error "overflow"                 -- checked_sub
+    else if amount < min (mulDec amount h.fee) (supply + h.reqB - h.bBond) then .error "overflow"
+    else .ok (amount - min (mulDec amount h.fee) (supply + h.reqB - h.bBond))
+  else .ok amount
 
 /-- peg fee of the paths that mint bSei for `value` coins (bond, convert stSei→bSei) -/
 def pegFeeOnMint (h : HubSt) (supply mint value : Nat) : Res Nat :=
-  if h.bRate < h.thr then do
-    let required ← csub (supply + mint + h.reqB) (h.bBond + value)
-    csub mint (min (mulDec mint h.fee) required)
-  else pure mint
+  if h.bRate < h.thr then
+    if supply + mint + h.reqB < h.bBond + value then .error "overflow"  -- `-` on Uint128 panics
+    else
+      if mint < min (mulDec mint h.fee) (supply + mint + h.reqB - (h.bBond + value)) then .error "overflow"
+      else .ok (mint - min (mulDec mint h.fee) (supply + mint + h.reqB - (h.bBond + value)))
+  else .ok mint
 
 def tokMsg (self : Addr) (tok : Addr) (m : TokMsg) : Msg := .wasm self tok (.tok m) []
 
-/-- `execute_bond` (kind: 0 = bSei, 1 = stSei, 2 = BondRewards) -/
-def bond (h : HubSt) (e : HubEnv) (sender : Addr) (funds : List (Denom × Nat)) (kind : Nat) :
-    Res (HubSt × List Msg) := do
-  let disp ← match h.dispatcher with
-    | none => throw "the reward dispatcher contract must have been registered"
-    | some d => pure d
-  if kind = 2 ∧ sender ≠ disp then throw "unauthorized"
-  if funds.length > 1 then throw "More than one coin is sent"
-  let payment ← match funds.find? (fun c => c.1 = 0 ∧ c.2 > 0) with
-    | none => throw "No assets are provided to bond"
-    | some c => pure c.2
-  let st ← h.actualState e           -- slashing(): saved
-  let supply0 := if kind = 0 then (st.bSupplyQ e).toOption.getD 0 else (st.sSupplyQ e).toOption.getD 0
-  let requested := if kind = 0 then h.reqB else h.reqS
-  let mintAmt ←
-    if kind = 0 then do
-      if st.bRate = 0 then throw "division by zero"
-      st.pegFeeOnMint supply0 (decDiv payment st.bRate) payment
-    else if kind = 1 then do
-      if st.sRate = 0 then throw "division by zero"
-      pure (decDiv payment st.sRate)
-    else pure 0
-  let supply := supply0 + mintAmt
-  let st1 : HubSt :=
-    if kind = 0 then
-      { st with bBond := st.bBond + payment, bRate := rateOf (st.bBond + payment) supply requested }
-    else if kind = 2 then
-      { st with sBond := st.sBond + payment, sRate := rateOf (st.sBond + payment) supply requested }
-    else { st with sBond := st.sBond + payment }
-  let reg ← match h.registry with
-    | none => throw "Validators registry contract address is empty"
-    | some r => pure r
-  let validators ← e.validatorsOf reg
-  if validators = [] then throw "Validators registry is empty"
-  let plan ← match calculateDelegations payment (validators.map (·.2)) with
-    | none => throw "delegation failed"
-    | some p => pure p.2
-  let delegs := zipMsgs (fun v p => Msg.delegate e.self v p) validators plan
-  if kind = 2 then pure (st1, delegs)
+/-- the single coin of the staking denom that must accompany a bond -/
+def paymentOf (funds : List (Denom × Nat)) : Res Nat :=
+  if funds.length > 1 then .error "More than one coin is sent"
   else
-    let tok ← match (if kind = 0 then h.bsei else h.stsei) with
-      | none => throw "the token contract must have been registered"
-      | some t => pure t
-    pure (st1, delegs ++ [tokMsg e.self tok (.mint sender mintAmt)])
+    match funds.find? (fun c => c.1 = 0 ∧ c.2 > 0) with
+    | none => .error "No assets are provided to bond"
+    | some c => .ok c.2
+
+/-- Delegate messages for a payment: registry query + `calculate_delegations` -/
+def delegMsgs (h : HubSt) (e : HubEnv) (payment : Nat) : Res (List Msg) :=
+  match h.registry with
+  | none => .error "Validators registry contract address is empty"
+  | some reg =>
+    match e.validatorsOf reg with
+    | .error err => .error err
+    | .ok validators =>
+      if validators = [] then .error "Validators registry is empty"
+      else
+        match calculateDelegations payment (validators.map (·.2)) with
+        | none => .error "delegation failed"
+        | some p => .ok (zipMsgs (fun v a => Msg.delegate e.self v a) validators p.2)
+
+/-- `execute_bond`, BondType::BSei -/
+def bondB (h : HubSt) (e : HubEnv) (sender : Addr) (funds : List (Denom × Nat)) :
+    Res (HubSt × List Msg) :=
+  match h.dispatcher with
+  | none => .error "the reward dispatcher contract must have been registered"
+  | some _ =>
+    match paymentOf funds with
+    | .error err => .error err
+    | .ok payment =>
+      match h.actualState e with            -- slashing(): saved
+      | .error err => .error err
+      | .ok st =>
+        if st.bRate = 0 then .error "division by zero"
+        else
+          match st.pegFeeOnMint ((st.bSupplyQ e).toOption.getD 0) (decDiv payment st.bRate) payment with
+          | .error err => .error err
+          | .ok mintAmt =>
+            match h.delegMsgs e payment with
+            | .error err => .error err
+            | .ok delegs =>
+              match h.bsei with
+              | none => .error "the token contract must have been registered"
+              | some tok =>
+                .ok ({ st with bBond := st.bBond + payment,
+                               bRate := rateOf (st.bBond + payment)
+                                 ((st.bSupplyQ e).toOption.getD 0 + mintAmt) h.reqB },
+                     delegs ++ [tokMsg e.self tok (.mint sender mintAmt)])
+
+/-- `execute_bond`, BondType::StSei (the stored stSei rate is not refreshed) -/
+def bondS (h : HubSt) (e : HubEnv) (sender : Addr) (funds : List (Denom × Nat)) :
+    Res (HubSt × List Msg) :=
+  match h.dispatcher with
+  | none => .error "the reward dispatcher contract must have been registered"
+  | some _ =>
+    match paymentOf funds with
+    | .error err => .error err
+    | .ok payment =>
+      match h.actualState e with
+      | .error err => .error err
+      | .ok st =>
+        if st.sRate = 0 then .error "division by zero"
+        else
+          match h.delegMsgs e payment with
+          | .error err => .error err
+          | .ok delegs =>
+            match h.stsei with
+            | none => .error "the token contract must have been registered"
+            | some tok =>
+              .ok ({ st with sBond := st.sBond + payment },
+                   delegs ++ [tokMsg e.self tok (.mint sender (decDiv payment st.sRate))])
+
+/-- `execute_bond`, BondType::BondRewards (dispatcher only; mints nothing) -/
+def bondR (h : HubSt) (e : HubEnv) (sender : Addr) (funds : List (Denom × Nat)) :
+    Res (HubSt × List Msg) :=
+  match h.dispatcher with
+  | none => .error "the reward dispatcher contract must have been registered"
+  | some disp =>
+    if sender ≠ disp then .error "unauthorized"
+    else
+      match paymentOf funds with
+      | .error err => .error err
+      | .ok payment =>
+        match h.actualState e with
+        | .error err => .error err
+        | .ok st =>
+          match h.delegMsgs e payment with
+          | .error err => .error err
+          | .ok delegs =>
+            .ok ({ st with sBond := st.sBond + payment,
+                           sRate := rateOf (st.sBond + payment) ((st.sSupplyQ e).toOption.getD 0) h.reqS },
+                 delegs)
+
+/-- state after recording an unbond request, before a possible undelegation -/
+def afterUnbondB (st : HubSt) (user : Addr) (supply amount withFee : Nat) : HubSt :=
+  { (st.addWait user st.batchId withFee 0) with
+      reqB := st.reqB + withFee, bRate := rateOf st.bBond (supply - amount) (st.reqB + withFee) }
+
+def afterUnbondS (st : HubSt) (user : Addr) (amount : Nat) : HubSt :=
+  { (st.addWait user st.batchId 0 amount) with reqS := st.reqS + amount }
 
 /-- `execute_unbond` (bSei) -/
-def unbondB (h : HubSt) (e : HubEnv) (amount : Nat) (user : Addr) : Res (HubSt × List Msg) := do
-  let st ← h.actualState e
-  let supply ← st.bSupplyQ e
-  let withFee ← st.pegFeeOnBurn supply amount
-  let st1 := (st.addWait user st.batchId withFee 0)
-  let st2 := { st1 with reqB := st1.reqB + withFee }
-  let supply' ← csub supply amount
-  let st3 := { st2 with bRate := rateOf st2.bBond supply' st2.reqB }
-  let (st4, msgs) ←
-    if e.now - st3.lastUnbondedTime > st3.epoch then st3.processUndelegations e else pure (st3, [])
-  if e.now < st3.lastUnbondedTime then throw "time underflow"
-  let tok ← match h.bsei with
-    | none => throw "the token contract must have been registered"
-    | some t => pure t
-  pure (st4, msgs ++ [tokMsg e.self tok (.burn amount)])
+def unbondB (h : HubSt) (e : HubEnv) (amount : Nat) (user : Addr) : Res (HubSt × List Msg) :=
+  match h.actualState e with
+  | .error err => .error err
+  | .ok st =>
+    match st.bSupplyQ e with
+    | .error err => .error err
+    | .ok supply =>
+      match st.pegFeeOnBurn supply amount with
+      | .error err => .error err
+      | .ok withFee =>
+        if supply < amount then .error "overflow"                              -- `total_supply -= amount`
+        else if e.now < st.lastUnbondedTime then .error "time underflow"
+        else
+          match h.bsei with
+          | none => .error "the token contract must have been registered"
+          | some tok =>
+            if e.now - st.lastUnbondedTime > st.epoch then
+              match (st.afterUnbondB user supply amount withFee).processUndelegations e with
+              | .error err => .error err
+              | .ok r => .ok (r.1, r.2 ++ [tokMsg e.self tok (.burn amount)])
+            else .ok (st.afterUnbondB user supply amount withFee, [tokMsg e.self tok (.burn amount)])
 
 /-- `execute_unbond_stsei` -/
-def unbondS (h : HubSt) (e : HubEnv) (amount : Nat) (user : Addr) : Res (HubSt × List Msg) := do
-  let st ← h.actualState e
-  let st1 := (st.addWait user st.batchId 0 amount)
-  let st2 := { st1 with reqS := st1.reqS + amount }
-  if e.now < st2.lastUnbondedTime then throw "time underflow"
-  let (st3, msgs) ←
-    if e.now - st2.lastUnbondedTime > st2.epoch then st2.processUndelegations e else pure (st2, [])
-  let tok ← match h.stsei with
-    | none => throw "the token contract must have been registered"
-    | some t => pure t
-  pure (st3, msgs ++ [tokMsg e.self tok (.burn amount)])
+def unbondS (h : HubSt) (e : HubEnv) (amount : Nat) (user : Addr) : Res (HubSt × List Msg) :=
+  match h.actualState e with
+  | .error err => .error err
+  | .ok st =>
+    if e.now < st.lastUnbondedTime then .error "time underflow"
+    else
+      match h.stsei with
+      | none => .error "the token contract must have been registered"
+      | some tok =>
+        if e.now - st.lastUnbondedTime > st.epoch then
+          match (st.afterUnbondS user amount).processUndelegations e with
+          | .error err => .error err
+          | .ok r => .ok (r.1, r.2 ++ [tokMsg e.self tok (.burn amount)])
+        else .ok (st.afterUnbondS user amount, [tokMsg e.self tok (.burn amount)])
 
 /-- `convert_stsei_bsei` -/
-def convertSB (h : HubSt) (e : HubEnv) (amount : Nat) (user : Addr) : Res (HubSt × List Msg) := do
-  let st ← h.actualState e
-  let sTok ← match h.stsei with
-    | none => throw "stsei contract must be registred"
-    | some t => pure t
-  let bTok ← match h.bsei with
-    | none => throw "bsei contract must be registred"
-    | some t => pure t
-  let value := mulDec amount st.sRate
-  if st.bRate = 0 then throw "division by zero"
-  let toMint := decDiv value st.bRate
-  let bs ← st.bSupplyQ e
-  let ss ← st.sSupplyQ e
-  let mintWithFee ← st.pegFeeOnMint bs toMint value
-  let ns ← csub st.sBond value
-  let ss' ← csub ss amount
-  let st1 := { st with bBond := st.bBond + value, sBond := ns }
-  let st2 := { st1 with bRate := rateOf st1.bBond (bs + mintWithFee) st.reqB,
-                        sRate := rateOf st1.sBond ss' st.reqS }
-  pure (st2, [tokMsg e.self bTok (.mint user mintWithFee), tokMsg e.self sTok (.burn amount)])
+def convertSB (h : HubSt) (e : HubEnv) (amount : Nat) (user : Addr) : Res (HubSt × List Msg) :=
+  match h.actualState e with
+  | .error err => .error err
+  | .ok st =>
+    match h.stsei, h.bsei with
+    | some sTok, some bTok =>
+      if st.bRate = 0 then .error "division by zero"
+      else
+        match st.bSupplyQ e, st.sSupplyQ e with
+        | .ok bs, .ok ss =>
+          match st.pegFeeOnMint bs (decDiv (mulDec amount st.sRate) st.bRate) (mulDec amount st.sRate) with
+          | .error err => .error err
+          | .ok mintWithFee =>
+            if st.sBond < mulDec amount st.sRate then .error "Decrease amount cannot exceed total stsei bond amount"
+            else if ss < amount then .error "Decrease amount cannot exceed total stsei supply"
+            else
+              .ok ({ st with bBond := st.bBond + mulDec amount st.sRate,
+                             sBond := st.sBond - mulDec amount st.sRate,
+                             bRate := rateOf (st.bBond + mulDec amount st.sRate) (bs + mintWithFee) st.reqB,
+                             sRate := rateOf (st.sBond - mulDec amount st.sRate) (ss - amount) st.reqS },
+                   [tokMsg e.self bTok (.mint user mintWithFee), tokMsg e.self sTok (.burn amount)])
+        | _, _ => .error "token query failed"
+    | _, _ => .error "token contracts must be registred"
 
 /-- `convert_bsei_stsei` -/
-def convertBS (h : HubSt) (e : HubEnv) (amount : Nat) (user : Addr) : Res (HubSt × List Msg) := do
-  let st ← h.actualState e
-  let sTok ← match h.stsei with
-    | none => throw "stsei contract must be registred"
-    | some t => pure t
-  let bTok ← match h.bsei with
-    | none => throw "bsei contract must be registred"
-    | some t => pure t
-  let bs ← st.bSupplyQ e
-  let ss ← st.sSupplyQ e
-  let withFee ← st.pegFeeOnBurn bs amount
-  let value := mulDec withFee st.bRate
-  if st.sRate = 0 then throw "division by zero"
-  let toMint := decDiv value st.sRate
-  let nb ← csub st.bBond value
-  let bs' ← csub bs amount
-  let st1 := { st with bBond := nb, sBond := st.sBond + value }
-  let st2 := { st1 with bRate := rateOf st1.bBond bs' st.reqB,
-                        sRate := rateOf st1.sBond (ss + toMint) st.reqS }
-  pure (st2, [tokMsg e.self sTok (.mint user toMint), tokMsg e.self bTok (.burn amount)])
+def convertBS (h : HubSt) (e : HubEnv) (amount : Nat) (user : Addr) : Res (HubSt × List Msg) :=
+  match h.actualState e with
+  | .error err => .error err
+  | .ok st =>
+    match h.stsei, h.bsei with
+    | some sTok, some bTok =>
+      match st.bSupplyQ e, st.sSupplyQ e with
+      | .ok bs, .ok ss =>
+        match st.pegFeeOnBurn bs amount with
+        | .error err => .error err
+        | .ok withFee =>
+          if st.sRate = 0 then .error "division by zero"
+          else if st.bBond < mulDec withFee st.bRate then .error "Decrease amount cannot exceed total bsei bond amount"
+          else if bs < amount then .error "Decrease amount cannot exceed total bsei supply"
+          else
+            .ok ({ st with bBond := st.bBond - mulDec withFee st.bRate,
+                           sBond := st.sBond + mulDec withFee st.bRate,
+                           bRate := rateOf (st.bBond - mulDec withFee st.bRate) (bs - amount) st.reqB,
+                           sRate := rateOf (st.sBond + mulDec withFee st.bRate)
+                             (ss + decDiv (mulDec withFee st.bRate) st.sRate) st.reqS },
+                 [tokMsg e.self sTok (.mint user (decDiv (mulDec withFee st.bRate) st.sRate)),
+                  tokMsg e.self bTok (.burn amount)])
+      | _, _ => .error "token query failed"
+    | _, _ => .error "token contracts must be registred"
 
 /-- `calculate_new_withdraw_rate` -/
 def newWithdrawRate (amount rate total : Nat) (slashed : Nat × Bool) : Nat :=
@@ -452,9 +530,9 @@ def hubExec (h : HubSt) (e : HubEnv) (sender : Addr) (funds : List (Denom × Nat
           if sender = b then h.convertBS e amt user
           else if sender = s then h.convertSB e amt user
           else throw "unauthorized"
-      | .bond => h.bond e sender funds 0
-      | .bondForStSei => h.bond e sender funds 1
-      | .bondRewards => h.bond e sender funds 2
+      | .bond => h.bondB e sender funds
+      | .bondForStSei => h.bondS e sender funds
+      | .bondRewards => h.bondR e sender funds
       | .updateGlobalIndex => h.updateGlobal e sender
       | .withdrawUnbonded => h.withdraw e sender
       | .checkSlashing => do
